@@ -171,6 +171,10 @@ func runP3(p *an.Prog, r *an.Result) {
 					r.OK(name, construct, ta.Pos(), "the asserted type is the only implementer of "+an.TypeName(xt)+" in the module")
 					return
 				}
+				if why := resultTypeByArgument(p, ta); why != "" {
+					r.OK(name, construct, ta.Pos(), why)
+					return
+				}
 				r.Bad(name, construct, ta.Pos(), fmt.Sprintf("unchecked assertion on %s, which has %d implementers: which one arrives is decided at run time", an.TypeName(xt), impls))
 				return
 			}
@@ -777,6 +781,14 @@ func runP6(p *an.Prog, r *an.Result) {
 					return false
 				}
 				n := an.CallName(c)
+				// a module predicate that answers true only for nil or a comparable value: isMapKey(v)
+				if callee := c.StaticCallee(); callee != nil && callee.Blocks != nil && p.InModule(callee) && len(callee.Params) == 1 && len(c.Args) == 1 && comparablePredicate(callee) {
+					for _, op := range []ssa.Value{a, b} {
+						if op != nil && (sameValue(c.Args[0], op) || derivesFromOperand(c.Args[0], op)) {
+							return true
+						}
+					}
+				}
 				// only the value-level test is sound: reflect.Type.Comparable is true for arrays and
 				// structs with interface elements, whose comparison still panics when an element
 				// holds a slice or map
@@ -943,7 +955,20 @@ func runP7(p *an.Prog, r *an.Result) {
 // are neither constant, integer-formatted nor QuoteMeta results.
 func rawPatternParts(v ssa.Value) []string {
 	var raw []string
-	seen := map[ssa.Value]bool{}
+	// a module helper that returns (part of) the pattern is read through: its results are walked with
+	// its parameters standing for the arguments of the call being expanded
+	type key struct {
+		v    ssa.Value
+		site *ssa.Call
+	}
+	seen := map[key]bool{}
+	var frames []*ssa.Call
+	site := func() *ssa.Call {
+		if len(frames) == 0 {
+			return nil
+		}
+		return frames[len(frames)-1]
+	}
 	var walk func(v ssa.Value)
 	elementsOf := func(sl ssa.Value) {
 		// every value stored into / appended to the slice
@@ -1015,11 +1040,29 @@ func rawPatternParts(v ssa.Value) []string {
 		collect(sl)
 	}
 	walk = func(v ssa.Value) {
-		if v == nil || seen[v] {
+		if v == nil || seen[key{v, site()}] {
 			return
 		}
-		seen[v] = true
+		seen[key{v, site()}] = true
 		switch x := v.(type) {
+		case *ssa.Parameter:
+			// a parameter of the helper being expanded: the argument at the call
+			for k := len(frames) - 1; k >= 0; k-- {
+				callee := frames[k].Call.StaticCallee()
+				if callee != x.Parent() {
+					continue
+				}
+				for i, par := range callee.Params {
+					if par == x && i < len(frames[k].Call.Args) {
+						saved := frames
+						frames = frames[:k]
+						walk(saved[k].Call.Args[i])
+						frames = saved
+						return
+					}
+				}
+			}
+			raw = append(raw, "parameter "+x.Name())
 		case *ssa.Const:
 		case *ssa.BinOp:
 			if x.Op == token.ADD {
@@ -1076,6 +1119,18 @@ func rawPatternParts(v ssa.Value) []string {
 				elementsOf(x.Call.Args[0])
 				walk(x.Call.Args[1])
 				return
+			}
+			if callee := x.Call.StaticCallee(); callee != nil && callee.Blocks != nil && callee.Pkg != nil && an.IsModulePkg(callee.Pkg.Pkg) && len(frames) < 4 {
+				if b, ok := x.Type().Underlying().(*types.Basic); ok && b.Info()&types.IsString != 0 {
+					frames = append(frames, x)
+					an.EachInstr(callee, func(in ssa.Instruction) {
+						if ret, ok := in.(*ssa.Return); ok {
+							walk(resultsOf(ret)[0])
+						}
+					})
+					frames = frames[:len(frames)-1]
+					return
+				}
 			}
 			raw = append(raw, "result of "+nonEmpty(cn, "a call"))
 		default:
@@ -2048,4 +2103,178 @@ func edgeGuarded(b *ssa.BasicBlock, pred func(cond ssa.Value, taken bool) bool) 
 		}
 	}
 	return false
+}
+
+// comparablePredicate: h(v) bool answers true only where v is nil or reflect.ValueOf(v).Comparable():
+// every origin of every result is the constant false, the Comparable() test of the parameter itself, a
+// comparison of the parameter with nil, or the constant true arriving over an edge that such a test
+// establishes.
+func comparablePredicate(h *ssa.Function) bool {
+	if h.Signature.Results().Len() != 1 {
+		return false
+	}
+	par := h.Params[0]
+	isTest := func(v ssa.Value) bool {
+		if c := an.CallOf(v); c != nil && an.CallName(c) == "(reflect.Value).Comparable" {
+			return derivesFromOperand(an.Args(c)[0], par)
+		}
+		if b, ok := v.(*ssa.BinOp); ok && b.Op == token.EQL {
+			return b.X == ssa.Value(par) && an.IsNilConst(b.Y) || b.Y == ssa.Value(par) && an.IsNilConst(b.X)
+		}
+		return false
+	}
+	pred := func(cond ssa.Value, taken bool) bool { return taken && isTest(cond) }
+	var okVal func(v ssa.Value, from *ssa.BasicBlock, to *ssa.BasicBlock, depth int) bool
+	okVal = func(v ssa.Value, from, to *ssa.BasicBlock, depth int) bool {
+		if depth > 6 {
+			return false
+		}
+		if c, ok := an.ConstBool(v); ok {
+			if !c {
+				return true
+			}
+			// true: the edge it arrives over must be one a test establishes
+			if from == nil {
+				return false
+			}
+			if an.AllPathsGuarded(from, pred) {
+				return true
+			}
+			if ifi, ok := from.Instrs[len(from.Instrs)-1].(*ssa.If); ok && len(from.Succs) == 2 {
+				for k, s := range from.Succs {
+					if s == to && pred(ifi.Cond, k == 0) {
+						return true
+					}
+				}
+			}
+			return false
+		}
+		if isTest(v) {
+			return true
+		}
+		if ph, ok := v.(*ssa.Phi); ok {
+			for i, e := range ph.Edges {
+				if !okVal(e, ph.Block().Preds[i], ph.Block(), depth+1) {
+					return false
+				}
+			}
+			return true
+		}
+		// a && b with b a test: the value is false or the test
+		return false
+	}
+	good, n := true, 0
+	an.EachInstr(h, func(in ssa.Instruction) {
+		if ret, ok := in.(*ssa.Return); ok {
+			n++
+			if !okVal(resultsOf(ret)[0], ret.Block(), nil, 0) {
+				good = false
+			}
+		}
+	})
+	return good && n > 0
+}
+
+// resultTypeByArgument: the operand of the assertion is the first result of a module function that
+// switches on the type of the argument it was given here, and on the arm for this argument's static
+// type every result is made from the asserted type - or is nil beside a non-nil error, which the
+// caller has tested before asserting.
+func resultTypeByArgument(p *an.Prog, ta *ssa.TypeAssert) string {
+	var call *ssa.Call
+	idx := 0
+	switch x := ta.X.(type) {
+	case *ssa.Call:
+		call = x
+	case *ssa.Extract:
+		if c, ok := x.Tuple.(*ssa.Call); ok {
+			call, idx = c, x.Index
+		}
+	}
+	if call == nil || idx != 0 {
+		return ""
+	}
+	callee := call.Call.StaticCallee()
+	if callee == nil || callee.Blocks == nil || !p.InModule(callee) {
+		return ""
+	}
+	// the error of the same call has been found nil
+	if callee.Signature.Results().Len() == 2 {
+		errOK := false
+		for _, g := range an.GuardsAtInstr(ta) {
+			b, ok := g.Cond.(*ssa.BinOp)
+			if !ok || !(b.Op == token.NEQ && !g.True || b.Op == token.EQL && g.True) {
+				continue
+			}
+			for _, pair := range [][2]ssa.Value{{b.X, b.Y}, {b.Y, b.X}} {
+				if ex, ok := pair[0].(*ssa.Extract); ok && ex.Tuple == ssa.Value(call) && ex.Index == 1 && an.IsNilConst(pair[1]) {
+					errOK = true
+				}
+			}
+		}
+		if !errOK {
+			return ""
+		}
+	}
+	// which parameter carries an argument whose static type is concrete, and is switched on in the callee
+	for i, a := range call.Call.Args {
+		if i >= len(callee.Params) {
+			break
+		}
+		at := a.Type()
+		if mi, ok := a.(*ssa.MakeInterface); ok {
+			at = mi.X.Type()
+		}
+		if an.IsInterface(at) {
+			continue
+		}
+		par := callee.Params[i]
+		if !an.IsInterface(par.Type()) {
+			continue
+		}
+		// the arm: blocks dominated by the ok edge of par.(at)
+		onArm := func(in ssa.Instruction) bool {
+			for _, g := range an.GuardsAtInstr(in) {
+				if ex, ok := g.Cond.(*ssa.Extract); ok && g.True && ex.Index == 1 {
+					if t2, ok := ex.Tuple.(*ssa.TypeAssert); ok && t2.X == ssa.Value(par) && types.Identical(t2.AssertedType, at) {
+						return true
+					}
+				}
+			}
+			return false
+		}
+		good, n := true, 0
+		an.EachInstr(callee, func(in ssa.Instruction) {
+			ret, ok := in.(*ssa.Return)
+			if !ok || !onArm(ret) {
+				return
+			}
+			res := resultsOf(ret)
+			for _, o := range an.Origins(res[0], stepIP(p)) {
+				n++
+				switch y := o.(type) {
+				case *ssa.MakeInterface:
+					if !types.Identical(y.X.Type(), ta.AssertedType) {
+						good = false
+					}
+				case *ssa.Const:
+					// nil: only beside an error that is not the nil constant
+					if y.Value != nil || len(res) < 2 || an.IsNilConst(res[len(res)-1]) {
+						good = false
+					}
+				case *ssa.Alloc:
+					if !types.Identical(y.Type(), ta.AssertedType) {
+						good = false
+					}
+				default:
+					if !types.Identical(o.Type(), ta.AssertedType) {
+						good = false
+					}
+				}
+			}
+		})
+		if good && n > 0 {
+			return fmt.Sprintf("%s switches on the type of its argument, which is %s here: on that arm every result is a %s, or nil beside an error that has been tested", an.FuncName(callee), an.TypeName(at), an.TypeName(ta.AssertedType))
+		}
+	}
+	return ""
 }
